@@ -26,6 +26,7 @@ func HeredocRules() lexer.Rules {
 			{Name: "Space", Pattern: `[ \n]+`},
 			{Name: "HereOpen", Pattern: `<<([A-Z])`, Action: lexer.Push("Here")},
 			{Name: "Alt", Pattern: `<-([A-Z])([A-Z])`, Action: lexer.Push("Here")},
+			{Name: "Bare", Pattern: `<=`, Action: lexer.Push("Here")}, // no group: \1 cannot be expanded in Here
 		},
 		"Here": {
 			{Name: "HereEnd", Pattern: `\1`, Action: lexer.Pop()},
@@ -35,11 +36,13 @@ func HeredocRules() lexer.Rules {
 }
 
 type Doc struct {
-	Items []*Item `@@*`
+	Tokens []lexer.Token
+	Items  []*Item `@@*`
 }
 type Item struct {
-	Key string `@Ident "="`
-	Val Val    `@@ ";"`
+	Tokens []lexer.Token
+	Key    string `@Ident "="`
+	Val    Val    `@@ ";"`
 }
 
 // Val is a union (sealed interface) so that the grammar also has a union production.
@@ -101,6 +104,10 @@ func lexAll(def lexer.Definition, in string) string {
 type Call struct {
 	Name string
 	F    func(shared any) string
+	// R, if set, runs the call and returns a renderer of the RETAINED result: it is rendered once at
+	// once and once more after every other call of the scenario / history has finished (a result
+	// must not change behind the caller's back).
+	R func(shared any) func() string
 }
 
 // Scenario: a fresh shared object and the calls that run concurrently on it.
@@ -117,15 +124,21 @@ const (
 	InBad  = "a = b c; d = ;"
 	InLex  = "a = <<X unterminated $"
 	InAlt  = "k = <-XY body X;"
+	InBare = "a = 1; b = <= x X;"
 )
 
 func parseCall(name, in string) Call {
-	return Call{"ParseString(" + name + ")", func(s any) string { return render(s.(*participle.Parser[Doc]).ParseString("f", in)) }}
+	return Call{Name: "ParseString(" + name + ")",
+		F: func(s any) string { return render(s.(*participle.Parser[Doc]).ParseString("f", in)) },
+		R: func(s any) func() string {
+			v, err := s.(*participle.Parser[Doc]).ParseString("f", in)
+			return func() string { return render(v, err) }
+		}}
 }
 
 func Scenarios() []Scenario {
 	lexCall := func(name, in string) Call {
-		return Call{"lex(" + name + ")", func(s any) string { return lexAll(s.(lexer.Definition), in) }}
+		return Call{Name: "lex(" + name + ")", F: func(s any) string { return lexAll(s.(lexer.Definition), in) }}
 	}
 	newDef := func() any { return NewDef() }
 	newParser := func() any { return NewParser() }
@@ -134,32 +147,42 @@ func Scenarios() []Scenario {
 		{"S1b definition: same back-reference key", newDef, []Call{lexCall("A", InA), lexCall("Same", InSame)}},
 		{"S1c definition: three lexers", newDef, []Call{lexCall("A", InA), lexCall("B", InB), lexCall("Alt", InAlt)}},
 		{"S2a parser: success || failure", newParser, []Call{parseCall("A", InA), parseCall("Bad", InBad)}},
-		{"S2b parser: success || String()", newParser, []Call{parseCall("A", InA), {"String()", func(s any) string { return s.(*participle.Parser[Doc]).String() }}}},
+		{"S2b parser: success || String()", newParser, []Call{parseCall("A", InA), {Name: "String()", F: func(s any) string { return s.(*participle.Parser[Doc]).String() }}}},
 		{"S2c parser: success || success || lex error", newParser, []Call{parseCall("A", InA), parseCall("B", InB), parseCall("Lex", InLex)}},
 		{"S2d parser: AllowTrailing || strict || Trace", newParser, []Call{
-			{"ParseString(trailing, AllowTrailing)", func(s any) string {
+			{Name: "ParseString(trailing, AllowTrailing)", F: func(s any) string {
 				return render(s.(*participle.Parser[Doc]).ParseString("f", "a = 1; ; ;", participle.AllowTrailing(true)))
 			}},
-			{"ParseString(trailing, strict)", func(s any) string { return render(s.(*participle.Parser[Doc]).ParseString("f", "a = 1; ; ;")) }},
-			{"ParseString(B, Trace)", func(s any) string {
+			{Name: "ParseString(trailing, strict)", F: func(s any) string { return render(s.(*participle.Parser[Doc]).ParseString("f", "a = 1; ; ;")) }},
+			{Name: "ParseString(B, Trace)", F: func(s any) string {
 				var sb strings.Builder
 				r := render(s.(*participle.Parser[Doc]).ParseString("f", InB, participle.Trace(&sb)))
 				return fmt.Sprintf("%s | trace bytes %d", r, sb.Len())
 			}},
 		}},
 		{"S2e parser: String() || String() || failing parse", newParser, []Call{
-			{"String()", func(s any) string { return s.(*participle.Parser[Doc]).String() }},
-			{"String() again", func(s any) string { return s.(*participle.Parser[Doc]).String() }},
+			{Name: "String()", F: func(s any) string { return s.(*participle.Parser[Doc]).String() }},
+			{Name: "String() again", F: func(s any) string { return s.(*participle.Parser[Doc]).String() }},
 			parseCall("Bad", InBad),
 		}},
 		{"S3 ebnf package-level parser", func() any { return nil }, []Call{
-			{"ebnf(1)", func(any) string { return render(ebnf.ParseString(`A = "a" | B . B = ( "b" C )* .`)) }},
-			{"ebnf(2)", func(any) string { return render(ebnf.ParseString(`X = ~"x" (?= Y ) Z+ . `)) }},
+			{Name: "ebnf(1)", F: func(any) string { return render(ebnf.ParseString(`A = "a" | B . B = ( "b" C )* .`)) }},
+			{Name: "ebnf(1) then edit the tree", F: func(any) string {
+				e, err := ebnf.ParseString(`A = "a" | B . B = ( "b" C )* .`)
+				r := render(e, err)
+				if err == nil && len(e.Productions) > 1 {
+					e.Productions[1].Production = "Renamed"
+					e.Productions[0].Expression.Alternatives[0].Terms[0].Repetition = "+"
+					e.Productions = e.Productions[:1]
+				}
+				return r
+			}},
+			{Name: "ebnf(2)", F: func(any) string { return render(ebnf.ParseString(`X = ~"x" (?= Y ) Z+ . `)) }},
 		}},
 		{"S4 parser: ParseBytes || Lex || Parse(reader)", newParser, []Call{
-			{"ParseBytes(A)", func(s any) string { return render(s.(*participle.Parser[Doc]).ParseBytes("f", []byte(InA))) }},
-			{"Lex(B)", func(s any) string { return render(s.(*participle.Parser[Doc]).Lex("f", strings.NewReader(InB))) }},
-			{"Parse(reader Same)", func(s any) string {
+			{Name: "ParseBytes(A)", F: func(s any) string { return render(s.(*participle.Parser[Doc]).ParseBytes("f", []byte(InA))) }},
+			{Name: "Lex(B)", F: func(s any) string { return render(s.(*participle.Parser[Doc]).Lex("f", strings.NewReader(InB))) }},
+			{Name: "Parse(reader Same)", F: func(s any) string {
 				return render(s.(*participle.Parser[Doc]).Parse("f", strings.NewReader(InSame)))
 			}},
 		}},
@@ -170,14 +193,22 @@ func Scenarios() []Scenario {
 func HistoryCalls() []Call {
 	return []Call{
 		parseCall("A", InA), parseCall("B", InB), parseCall("Same", InSame), parseCall("Bad", InBad), parseCall("Lex", InLex), parseCall("Alt", InAlt),
-		{"String()", func(s any) string { return s.(*participle.Parser[Doc]).String() }},
-		{"Lex(A)", func(s any) string { return render(s.(*participle.Parser[Doc]).Lex("f", strings.NewReader(InA))) }},
-		{"ParseBytes(empty)", func(s any) string { return render(s.(*participle.Parser[Doc]).ParseBytes("", nil)) }},
-		{"ParseString(trailing garbage)", func(s any) string { return render(s.(*participle.Parser[Doc]).ParseString("f", "a = 1; ; ;")) }},
-		{"ParseString(trailing garbage, AllowTrailing)", func(s any) string {
+		{Name: "String()", F: func(s any) string { return s.(*participle.Parser[Doc]).String() }},
+		{Name: "Lex(A)", F: func(s any) string { return render(s.(*participle.Parser[Doc]).Lex("f", strings.NewReader(InA))) }},
+		parseCall("Bare", InBare),
+		{Name: "ParserForProduction[Item] then its ParseString", F: func(s any) string {
+			pp, err := participle.ParserForProduction[Item](s.(*participle.Parser[Doc]))
+			if err != nil {
+				return "ERR " + err.Error()
+			}
+			return render(pp.ParseString("f", "k = 7;"))
+		}},
+		{Name: "ParseBytes(empty)", F: func(s any) string { return render(s.(*participle.Parser[Doc]).ParseBytes("", nil)) }},
+		{Name: "ParseString(trailing garbage)", F: func(s any) string { return render(s.(*participle.Parser[Doc]).ParseString("f", "a = 1; ; ;")) }},
+		{Name: "ParseString(trailing garbage, AllowTrailing)", F: func(s any) string {
 			return render(s.(*participle.Parser[Doc]).ParseString("f", "a = 1; ; ;", participle.AllowTrailing(true)))
 		}},
-		{"ParseString(A, Trace)", func(s any) string {
+		{Name: "ParseString(A, Trace)", F: func(s any) string {
 			var sb strings.Builder
 			r := render(s.(*participle.Parser[Doc]).ParseString("f", InA, participle.Trace(&sb)))
 			return fmt.Sprintf("%s | trace bytes %d", r, sb.Len())
